@@ -89,11 +89,17 @@ pub fn step<'a>(term: &Term<'a>) -> Option<Term<'a>> {
             }
         }
         Let(definitions, body) => {
-            // If there are definitions, step the first one and substitute it into the subsequent
-            // definitions and body. Otherwise, just return the body.
-            if let Some((variable, annotation, definition)) = definitions.first() {
+            // Definitions that are already values are available to the whole group (that is what the
+            // definition-order check in the parser assumes), so we substitute the first such
+            // definition into the other definitions and the body. If no definition is a value yet, we
+            // step the first one. If there are no definitions, just return the body.
+            let position = definitions
+                .iter()
+                .position(|(_, _, definition)| is_value(definition))
+                .unwrap_or(0);
+            if let Some((variable, annotation, definition)) = definitions.get(position) {
                 // Compute this once rather than multiple times.
-                let index = definitions.len() - 1;
+                let index = definitions.len() - 1 - position;
                 let index_plus_one = index + 1;
 
                 // Try to step the definition.
@@ -152,11 +158,12 @@ pub fn step<'a>(term: &Term<'a>) -> Option<Term<'a>> {
                     0,
                 );
 
-                // Substitute the unfolded definition in subsequent annotations and definitions.
+                // Substitute the unfolded definition in the other annotations and definitions.
                 let substituted_definitions = definitions
                     .iter()
-                    .skip(1)
-                    .map(|(variable, annotation, definition)| {
+                    .enumerate()
+                    .filter(|(i, _)| *i != position)
+                    .map(|(_, (variable, annotation, definition))| {
                         (
                             *variable,
                             Rc::new(open(annotation, index, &unfolded_definition, 0)),
